@@ -111,6 +111,8 @@ slice is clipped (so `output[lo:hi] = f(x[lo:hi])` has matching lengths), and ev
 for EVERY outcome of `argmin` and of the `right_x - left_x == 0` test, every number of control points, every `N` -/
 theorem bezierSpline_inb {N ny : Nat} {ix : List Int} (h : BezPre N ix) (am : Nat → Nat) (eq : Nat → Bool) :
     ∀ e ∈ bezierTrace N ny ix am eq, e.Ok N ny ix.length := bezierTrace_ok h am eq
+/-- `_quadratic_bezier(y_points, t)`: both call sites pass the 3-element list `[left_y, center_y, right_y]` -/
+theorem quadraticBezier_inb : ∀ i ∈ quadBezierIdx, 0 ≤ i ∧ i < (([0, 0, 0] : List Rat).length : Int) := by decide
 /-- the precondition is decidable as stated (what the harness' pre-monitor evaluates) -/
 theorem bezPre_decidable (N : Nat) (ix : List Int) : bezPreB N ix = true ↔ BezPre N ix := bezPreB_iff N ix
 example : bezPreB 8 [0, 2, 4, 5, 7] = true ∧
